@@ -17,6 +17,10 @@ variables and accepts only the shapes it knows:
                                   get_cached_engine (return) and by normalize_merchant
                                   (`if _cached_engine is not None:` + `.match(...)`, before the loop
                                   over the `rules` argument)
+  merchant_utils._reported_load_errors / _report_rules_load_error   (optional) the show-once stderr report of
+                                  .rules load errors: set tested/added-to only inside the report function, cleared by
+                                  clear_engine_cache; the function returns nothing and prints to sys.stderr; called
+                                  only as an expression statement inside except handlers
   MerchantEngine.parse            leading `self.X = []|{}` statements (what a re-parse resets) and the
                                   attributes __init__ creates
 
@@ -281,6 +285,78 @@ def engine_facts(tree):
     return {'resets': resets, 'init': init_attrs}
 
 
+REPORT_FN = '_report_rules_load_error'
+REPORT_SET = '_reported_load_errors'
+
+
+def handler_falls_through(h):
+    """`except …: pass`  or  `except Exception as e: _report_rules_load_error(rules_path, e)` (value discarded)"""
+    body = h.body
+    if [type(s).__name__ for s in body] == ['Pass']:
+        return True
+    if len(body) == 1 and isinstance(body[0], ast.Expr) and isinstance(body[0].value, ast.Call):
+        c = body[0].value
+        return (isinstance(c.func, ast.Name) and c.func.id == REPORT_FN and h.name is not None and not c.keywords
+                and [src(a) for a in c.args] == ['rules_path', h.name])
+    return False
+
+
+def load_error_report_facts(tree, par):
+    """The show-once load-error report (ADOPT-C17): process-level state with history.  Accepted only in the shape
+    in which it can influence nothing but stderr: a module-level set that is tested/added-to inside the report
+    function and cleared by clear_engine_cache; the function returns nothing and prints to sys.stderr; every call
+    is an expression statement inside an except handler."""
+    fns = [n for n in tree.body if isinstance(n, ast.FunctionDef) and n.name == REPORT_FN]
+    uses = [n for n in ast.walk(tree) if isinstance(n, ast.Name) and n.id == REPORT_SET]
+    calls = [n for n in ast.walk(tree) if isinstance(n, ast.Call) and isinstance(n.func, ast.Name) and n.func.id == REPORT_FN]
+    others = [n for n in ast.walk(tree) if isinstance(n, ast.Name) and n.id == REPORT_FN and not (isinstance(par.get(n), ast.Call) and par[n].func is n)]
+    if not fns and not uses and not calls and not others:
+        return {'present': False, 'facts': []}
+    if len(fns) != 1 or others:
+        raise Unknown(f'{REPORT_FN}: defined {len(fns)} times / referenced other than by a call')
+    fn = fns[0]
+    if [a.arg for a in fn.args.args] != ['rules_path', 'error'] or fn.args.vararg or fn.args.kwarg or fn.decorator_list:
+        raise Unknown(f'{REPORT_FN}: unexpected signature')
+    body = [st for st in fn.body if not (isinstance(st, ast.Expr) and isinstance(st.value, ast.Constant))]
+    ok = (len(body) == 2 and isinstance(body[0], ast.Assign) and src(body[0]) == 'key = (str(rules_path), str(error))'
+          and isinstance(body[1], ast.If) and src(body[1].test) == f'key not in {REPORT_SET}' and not body[1].orelse
+          and len(body[1].body) == 2 and src(body[1].body[0]) == f'{REPORT_SET}.add(key)'
+          and isinstance(body[1].body[1], ast.Expr) and isinstance(body[1].body[1].value, ast.Call)
+          and src(body[1].body[1].value.func) == 'print'
+          and [k.arg + '=' + src(k.value) for k in body[1].body[1].value.keywords] == ['file=sys.stderr'])
+    if not ok:
+        raise Unknown(f'{REPORT_FN}: body is not `key = (str(rules_path), str(error)); if key not in {REPORT_SET}: add; print(..., file=sys.stderr)`')
+    for n in ast.walk(fn):
+        if isinstance(n, (ast.Return, ast.Global, ast.Nonlocal, ast.Raise, ast.Yield)):
+            raise Unknown(f'{REPORT_FN}: contains {type(n).__name__}')
+    # the set: one module-level definition `= set()`, the two uses above, and `.clear()` in clear_engine_cache
+    shapes = []
+    for n in sorted(uses, key=lambda x: (x.lineno, x.col_offset)):
+        p = par.get(n)
+        f = enclosing_function(n, par)
+        if f is None and isinstance(p, (ast.Assign, ast.AnnAssign)) and src(p.value) == 'set()':
+            shapes.append('<module>:set()')
+        elif f is fn:
+            shapes.append(f'{REPORT_FN}:use')
+        elif f is not None and f.name == 'clear_engine_cache' and isinstance(p, ast.Attribute) and p.attr == 'clear' \
+                and isinstance(par.get(p), ast.Call) and isinstance(par.get(par[p]), ast.Expr):
+            shapes.append('clear_engine_cache:clear()')
+        else:
+            raise Unknown(f'{REPORT_SET}: unrecognised use at line {n.lineno}')
+    if sorted(shapes) != sorted(['<module>:set()', f'{REPORT_FN}:use', f'{REPORT_FN}:use', 'clear_engine_cache:clear()']):
+        raise Unknown(f'{REPORT_SET}: uses {shapes}')
+    sites = []
+    for c in sorted(calls, key=lambda x: x.lineno):
+        st = par.get(c)
+        h = par.get(st)
+        f = enclosing_function(c, par)
+        if not (isinstance(st, ast.Expr) and isinstance(h, ast.ExceptHandler) and f is not None):
+            raise Unknown(f'{REPORT_FN}: called outside an except handler / its value is used (line {c.lineno})')
+        sites.append(f.name)
+    return {'present': True, 'facts': ['set:' + REPORT_SET, 'test-add-print(file=sys.stderr)', 'returns-nothing',
+                                       'cleared-by:clear_engine_cache'] + ['called-in-except:' + x for x in sites]}
+
+
 def cached_engine_facts(tree, par):
     var = '_cached_engine'
     writes, reads = [], []
@@ -343,8 +419,9 @@ def cached_engine_facts(tree, par):
                 if len(binds) != 1 or not (isinstance(binds[0].value, ast.Call) and src(binds[0].value.func) == 'load_merchants_file'):
                     raise Unknown(f'{var} = engine: engine is not load_merchants_file(...)')
                 # the handler must swallow and fall through to the CSV reader
-                if len(tr.handlers) != 1 or [type(s).__name__ for s in tr.handlers[0].body] != ['Pass']:
-                    raise Unknown('get_all_rules: the except clause of the .rules branch does more than `pass`')
+                if len(tr.handlers) != 1 or not handler_falls_through(tr.handlers[0]):
+                    raise Unknown('get_all_rules: the except clause of the .rules branch does more than `pass` / '
+                                  '`_report_rules_load_error(rules_path, e)`')
                 writes.append((n.lineno, 'get_all_rules:engine@try@if-endswith-rules'))
             else:
                 raise Unknown(f'{var}: unrecognised write in {fn.name}: {src(p)}')
@@ -416,6 +493,12 @@ def extract(srcdir):
     facts['engine'] = engine_facts(me)
     mu, mu_par = load('merchant_utils.py')
     facts['cached'] = cached_engine_facts(mu, mu_par)
+    facts['report'] = load_error_report_facts(mu, mu_par)
+    for fn in sorted(os.listdir(srcdir)):
+        if fn.endswith('.py') and fn != 'merchant_utils.py':
+            txt = open(os.path.join(srcdir, fn), encoding='utf-8').read()
+            if REPORT_SET in txt:
+                raise Unknown(f'{REPORT_SET} mentioned in {fn}')
     for fn in sorted(os.listdir(srcdir)):
         if fn.endswith('.py') and fn != 'merchant_utils.py':
             if '_cached_engine' in open(os.path.join(srcdir, fn), encoding='utf-8').read():
@@ -455,6 +538,10 @@ Definition facts : cache_facts := {{|
 
 (* every assignment to merchant_utils._cached_engine, in source order *)
 Definition cached_engine_writes : list string := {cl(c['writes'])}.
+
+(* the show-once report of .rules load errors (process-level state with history; influences stderr only) *)
+Definition reports_load_errors : bool := {'true' if f['report']['present'] else 'false'}.
+Definition load_error_report : list string := {cl(f['report']['facts'])}.
 
 (* does get_all_rules start by resetting _cached_engine (proposed_fixes/C07-reset-cached-engine.diff)? *)
 Definition get_all_rules_resets_cached_engine : bool := {'true' if c['resets'] else 'false'}.
